@@ -238,6 +238,67 @@ pub fn dispatch(f: &[&str]) -> Result<String, String> {
                 }
             }
         }
+        // RONTXT Z... : the RON text of an object (schema written verbatim, vars through the ron serializer)
+        "RONTXT" => {
+            let mut c = crate::zenc::Cur { f, i: 1 };
+            if c.next()? != "Z" {
+                return Err("expected Z".into());
+            }
+            let rs = crate::zenc::raw_schema(&mut c)?;
+            let vs = crate::zenc::vars(&mut c)?;
+            Ok(format!("OK {}", hex(&crate::zenc::raw_ron(&rs, &vs))))
+        }
+        // RONRT Z... : Zerv::new -> to_string -> from_str -> == and re-emit ; replies OK <text> | INVALID | MISMATCH ...
+        "RONRT" => {
+            let mut c = crate::zenc::Cur { f, i: 1 };
+            match crate::zenc::zerv(&mut c)? {
+                Err(_) => Ok("INVALID".into()),
+                Ok(z) => {
+                    let t1 = z.to_string();
+                    match zerv::version::Zerv::from_str(&t1) {
+                        Err(e) => Ok(format!("NOPARSE {}", hex(&e.to_string()))),
+                        Ok(z2) => {
+                            let t2 = z2.to_string();
+                            if z2 != z {
+                                Ok(format!("MISMATCH-OBJECT {}", hex(&t1)))
+                            } else if t2 != t1 {
+                                Ok(format!("MISMATCH-TEXT {}", hex(&t1)))
+                            } else {
+                                Ok(format!("OK {}", hex(&t1)))
+                            }
+                        }
+                    }
+                }
+            }
+        }
+        // RONP <text> : parse_and_validate_zerv_ron + Zerv::new(schema validation) ; OK Z... | ERR | INVALID-SCHEMA
+        "RONP" => {
+            let t = unhex(f[1])?;
+            match zerv::cli::utils::format_handler::InputFormatHandler::parse_and_validate_zerv_ron(&t) {
+                Err(_) => Ok("ERR".into()),
+                Ok(z) => match zerv::version::Zerv::new(z.schema.clone(), z.vars.clone()) {
+                    Ok(z) => Ok(format!("OK {}", crate::zenc::enc_zerv(&z))),
+                    Err(_) => Ok("INVALID-SCHEMA".into()),
+                },
+            }
+        }
+        // RONV Z... : does a document carrying this (possibly invalid) schema get through parsing + Zerv::new ? OK | REJECT
+        "RONV" => {
+            let mut c = crate::zenc::Cur { f, i: 1 };
+            if c.next()? != "Z" {
+                return Err("expected Z".into());
+            }
+            let rs = crate::zenc::raw_schema(&mut c)?;
+            let vs = crate::zenc::vars(&mut c)?;
+            let t = crate::zenc::raw_ron(&rs, &vs);
+            match zerv::cli::utils::format_handler::InputFormatHandler::parse_and_validate_zerv_ron(&t) {
+                Err(_) => Ok("REJECT".into()),
+                Ok(z) => match zerv::version::Zerv::new(z.schema.clone(), z.vars.clone()) {
+                    Ok(_) => Ok("OK".into()),
+                    Err(_) => Ok("REJECT".into()),
+                },
+            }
+        }
         // CNV <in-fmt> <out-fmt> <prefix?> <s> : zerv render
         "CNV" => {
             let prefix = opt_str(f[3])?;
